@@ -29,7 +29,7 @@ package zapcore
 //@   flags nopanic
 //@   requires *enc != nil && encObj(*enc)
 //@   track AS = invoke zapcore.ObjectEncoder.AddString
-//@   modifies $user, fields(zapcore.jsonEncoder), buffer.Buffer.bs, comp(E:uint8), fields(zapcore.errArrayElem), *retErr, panicking()
+//@   modifies $user, fields(zapcore.jsonEncoder), buffer.Buffer.bs, comp(E:uint8), fields(zapcore.errArrayElem), *retErr, panicking(), fields(zapcore.sliceArrayEncoder)
 //@   ensures encObj(*enc) && !panicking()
 //@   ensures !old(panicking()) ==> *retErr == old(*retErr) && #AS == 0
 //@   ensures old(panicking()) ==> (#AS == 1 && AS.arg0[0] == *key && AS.arg1[0] == "<nil>" && *retErr == old(*retErr)) || (#AS == 0 && *retErr != nil)
@@ -41,7 +41,7 @@ package zapcore
 //@   props C10 C01
 //@   flags nopanic
 //@   requires enc != nil && encObj(enc) && implements(stringer, type(fmt.Stringer))
-//@   modifies $user, fields(zapcore.jsonEncoder), buffer.Buffer.bs, comp(E:uint8), fields(zapcore.errArrayElem)
+//@   modifies $user, fields(zapcore.jsonEncoder), buffer.Buffer.bs, comp(E:uint8), fields(zapcore.errArrayElem), fields(zapcore.sliceArrayEncoder)
 //@   ensures encObj(enc)
 //@   ensures encFrame(enc)
 
@@ -50,7 +50,7 @@ package zapcore
 //@   flags nopanic
 //@   requires *enc != nil && encObj(*enc)
 //@   track AS = invoke zapcore.ObjectEncoder.AddString
-//@   modifies $user, fields(zapcore.jsonEncoder), buffer.Buffer.bs, comp(E:uint8), fields(zapcore.errArrayElem), *retErr, panicking()
+//@   modifies $user, fields(zapcore.jsonEncoder), buffer.Buffer.bs, comp(E:uint8), fields(zapcore.errArrayElem), *retErr, panicking(), fields(zapcore.sliceArrayEncoder)
 //@   ensures encObj(*enc) && !panicking()
 //@   ensures !old(panicking()) ==> *retErr == old(*retErr) && #AS == 0
 //@   ensures old(panicking()) ==> (#AS == 1 && AS.arg0[0] == *key && AS.arg1[0] == "<nil>" && *retErr == old(*retErr)) || (#AS == 0 && *retErr != nil)
@@ -61,7 +61,7 @@ package zapcore
 //@   flags nopanic
 //@   maypanic-call error.Error
 //@   requires enc != nil && encObj(enc) && err != nil
-//@   modifies $user, fields(zapcore.jsonEncoder), buffer.Buffer.bs, comp(E:uint8), fields(zapcore.errArrayElem)
+//@   modifies $user, fields(zapcore.jsonEncoder), buffer.Buffer.bs, comp(E:uint8), fields(zapcore.errArrayElem), fields(zapcore.sliceArrayEncoder)
 //@   ensures encObj(enc)
 //@   ensures encFrame(enc)
 
@@ -88,7 +88,7 @@ package zapcore
 //@   flags nopanic
 //@   requires e != nil && enc != nil && encObj(enc)
 //@   assumes e.err != nil
-//@   modifies $user, fields(zapcore.jsonEncoder), buffer.Buffer.bs, comp(E:uint8), fields(zapcore.errArrayElem)
+//@   modifies $user, fields(zapcore.jsonEncoder), buffer.Buffer.bs, comp(E:uint8), fields(zapcore.errArrayElem), fields(zapcore.sliceArrayEncoder)
 //@   ensures encObj(enc)
 //@   ensures encFrame(enc)
 
@@ -99,7 +99,7 @@ package zapcore
 //@   requires arr != nil && encArr(arr) && _errArrayElemPool != nil
 //@   track NE = call zapcore.newErrArrayElem
 //@   track FR = call (*zapcore.errArrayElem).Free
-//@   modifies $user, fields(zapcore.jsonEncoder), buffer.Buffer.bs, comp(E:uint8), fields(zapcore.errArrayElem)
+//@   modifies $user, fields(zapcore.jsonEncoder), buffer.Buffer.bs, comp(E:uint8), fields(zapcore.errArrayElem), fields(zapcore.sliceArrayEncoder)
 //@   ensures isJ(arr) ==> jok(jenc(arr)) && elemPos(jq(jenc(arr))) && j_stack(jq(jenc(arr))) == old(j_stack(jq(jenc(arr)))) && jenc(arr).openNamespaces == old(jenc(arr).openNamespaces)
 //@   ensures #FR == #NE
 //@   loop 1 invariant 0 <= $idx && $idx <= len(errs) && #FR == #NE
@@ -115,7 +115,7 @@ package zapcore
 //@   flags nopanic propagates-panics
 //@   requires enc != nil && encObj(enc) && wfEnc(f)
 //@   track ERR = invoke zapcore.ObjectEncoder.AddString
-//@   modifies $user, fields(zapcore.jsonEncoder), buffer.Buffer.bs, comp(E:uint8), fields(zapcore.errArrayElem)
+//@   modifies $user, fields(zapcore.jsonEncoder), buffer.Buffer.bs, comp(E:uint8), fields(zapcore.errArrayElem), fields(zapcore.sliceArrayEncoder)
 //@   ensures encObj(enc)
 //@   ensures f.Type == 15 ==> #ERR == 1
 //@   ensures f.Type != 15 ==> #ERR <= 1
@@ -126,7 +126,7 @@ package zapcore
 //@   flags nopanic propagates-panics
 //@   requires enc != nil && encObj(enc) && (forall i int :: 0 <= i && i < len(fields) ==> wfEnc(fields[i]))
 //@   track AT = call (zapcore.Field).AddTo
-//@   modifies $user, fields(zapcore.jsonEncoder), buffer.Buffer.bs, comp(E:uint8), fields(zapcore.errArrayElem)
+//@   modifies $user, fields(zapcore.jsonEncoder), buffer.Buffer.bs, comp(E:uint8), fields(zapcore.errArrayElem), fields(zapcore.sliceArrayEncoder)
 //@   ensures encObj(enc)
 //@   ensures #AT == len(fields)
 //@   loop 1 invariant 0 <= $idx && $idx <= len(fields) && #AT == $idx && encObj(enc)
